@@ -227,10 +227,36 @@ func (e *evWorld) check(q *evQuery) {
 		nblocks := len(e.M.Chain) + len(e.pre)
 		maxPages := 2*(len(want)+nblocks) + 8
 		nonFound := q.from.mayNotFound || q.to.mayNotFound
+		var ref []any // noModel queries: the first complete answer is what every other answer must equal
+		refBy := ""
 		for _, v := range versions {
 			for _, ch := range chunks {
+				if q.noModel {
+					maxPages = 4000
+				}
 				s := e.follow(v, q, ch, maxPages)
 				e.judged++
+				if q.noModel && s.err == nil && s.bad == "" {
+					// compared on the members all versions render (v0.10 adds the two index members)
+					strip := func(evs []any) string {
+						out := make([]string, len(evs))
+						for i, x := range evs {
+							m, _ := x.(map[string]any)
+							out[i] = fmt.Sprintf("%v|%v|%v|%v|%v|%v", m["block_number"], m["block_hash"], m["transaction_hash"], m["from_address"], m["keys"], m["data"])
+						}
+						return strings.Join(out, "\n")
+					}
+					if ref == nil {
+						ref, refBy = s.events, fmt.Sprintf("%s chunk_size %d", v, ch)
+						if ref == nil {
+							ref = []any{}
+						}
+						e.c.Probe("trailing_empty_key_positions_compared_across_versions_and_chunks")
+					} else if strip(ref) != strip(s.events) {
+						note(v, "unspecified_pattern_answers_differ", "chunk_size %d: %d events, but %s returned %d for the same request (a key pattern with trailing empty positions: whatever it selects must not depend on the chunk size or the API version)", ch, len(s.events), refBy, len(ref))
+					}
+					continue
+				}
 				switch {
 				case s.err != nil && nonFound && s.err.ErrCode == codeBlockNotFound && s.pages == 1:
 					// an id that names no block of the node may be refused
